@@ -29,6 +29,7 @@
 package main
 
 import (
+	"archive/tar"
 	"context"
 	"errors"
 	"flag"
@@ -39,7 +40,11 @@ import (
 	"strings"
 	"testing/fstest"
 
+	v1 "github.com/google/go-containerregistry/pkg/v1"
+	"github.com/google/go-containerregistry/pkg/v1/empty"
+	v1mutate "github.com/google/go-containerregistry/pkg/v1/mutate"
 	scalibr "github.com/google/osv-scalibr"
+	"github.com/google/osv-scalibr/artifact/image/layerscanning/image"
 	"github.com/google/osv-scalibr/detector"
 	"github.com/google/osv-scalibr/extractor"
 	"github.com/google/osv-scalibr/extractor/filesystem"
@@ -51,6 +56,7 @@ import (
 	"github.com/google/osv-scalibr/purl"
 
 	"verif/harness/hx"
+	"verif/harness/imgx"
 )
 
 // ---------------------------------------------------------------- case structure
@@ -309,6 +315,7 @@ type world struct {
 	fnd      map[int]*detector.Finding // ptr label -> the one Go object
 	fndLabel map[*detector.Finding]int
 	calls    []string
+	xcalls   int // Extract calls of the fake extractors
 	obs      []string
 	cancel   context.CancelFunc
 	files    map[string]fileSpec // "r<root>f<idx>.x<exts>" -> spec
@@ -394,6 +401,7 @@ func (e fsx) FileRequired(api filesystem.FileAPI) bool {
 }
 
 func (e fsx) Extract(_ context.Context, in *filesystem.ScanInput) (inventory.Inventory, error) {
+	e.w.xcalls++
 	f := e.w.files[in.Path]
 	inv := inventory.Inventory{Packages: e.w.mkPkgs(f.pkgs, in.Path), Findings: e.w.mkFindings(f.findings)}
 	if f.err {
@@ -409,6 +417,7 @@ type stx struct {
 }
 
 func (e stx) Extract(context.Context, *standalone.ScanInput) (inventory.Inventory, error) {
+	e.w.xcalls++
 	inv := inventory.Inventory{Packages: e.w.mkPkgs(e.spec.pkgs, "st"), Findings: e.w.mkFindings(e.spec.findings)}
 	if e.spec.err {
 		return inv, errors.New("standalone failed")
@@ -504,8 +513,42 @@ func errEnum(msg string) string {
 	return "other"
 }
 
-func run(c tcase) string {
-	return hx.Guard(func() string {
+func run(c tcase) string { return runGated(c, "") }
+
+// gateDet: a detector that finds nothing and REQUIRES an extractor by name (op gate)
+type gateDet struct {
+	base
+	req []string
+	w   *world
+}
+
+func (d gateDet) RequiredExtractors() []string { return d.req }
+func (d gateDet) Scan(context.Context, *scalibrfs.ScanRoot, *packageindex.PackageIndex) ([]*detector.Finding, error) {
+	d.w.calls = append(d.w.calls, d.name)
+	return nil, nil
+}
+
+// winST: a standalone extractor whose requirements (Windows) the scan's capabilities do not meet
+type winST struct {
+	base
+	w *world
+}
+
+func (winST) Requirements() *plugin.Capabilities { return &plugin.Capabilities{OS: plugin.OSWindows} }
+func (e winST) Extract(context.Context, *standalone.ScanInput) (inventory.Inventory, error) {
+	e.w.xcalls++
+	return inventory.Inventory{}, nil
+}
+
+// runGated runs a scan case; gate = "" (plain `scan`) or the four flags <e><v><r><p> of op `gate`:
+// e 0 = two detectors require an extractor that is in neither list.go, 2 = they require python/wheelegg, 3 = the standalone windows/dismpatch; v 0 = a standalone
+// extractor needs Windows; r 0 = no scan root, 2 = at least two roots; p 1 = PathsToExtract set.
+func runGated(c tcase, gate string) string {
+	return hx.Guard(func() string { return runGatedNoGuard(c, gate) })
+}
+
+func runGatedNoGuard(c tcase, gate string) string {
+	return func() string {
 		ctx, cancel := context.WithCancel(context.Background())
 		defer cancel()
 		w := &world{c: c, pkgID: map[*extractor.Package]int{}, fnd: map[int]*detector.Finding{}, fndLabel: map[*detector.Finding]int{}, cancel: cancel, files: map[string]fileSpec{}}
@@ -558,7 +601,91 @@ func run(c tcase) string {
 		for i, d := range c.dets {
 			cfg.Detectors = append(cfg.Detectors, det{base{fmt.Sprintf("det%d", i)}, i, d, w})
 		}
-		res := scalibr.New().Scan(ctx, cfg)
+		if gate != "" && !strings.HasPrefix(gate, "C") {
+			if gate[0] != '1' {
+				// '3': a STANDALONE extractor of list.go (its non-Windows build has no requirements and fails when run)
+				req := map[byte]string{'0': "nosuch/extractor", '2': "python/wheelegg", '3': "windows/dismpatch"}[gate[0]]
+				cfg.Detectors = append(cfg.Detectors, gateDet{base{"detgate0"}, []string{req}, w}, gateDet{base{"detgate1"}, []string{req, req}, w})
+			}
+			if gate[1] == '0' {
+				cfg.StandaloneExtractors = append(cfg.StandaloneExtractors, winST{base{"sxwin"}, w})
+			}
+			switch gate[2] {
+			case '0':
+				cfg.ScanRoots = nil
+			case '2':
+				if len(cfg.ScanRoots) < 2 {
+					cfg.ScanRoots = append(cfg.ScanRoots, &scalibrfs.ScanRoot{FS: fstest.MapFS{}})
+				}
+			}
+			if gate[3] == '1' {
+				cfg.PathsToExtract = []string{"r0f000.xn"}
+			}
+		}
+		var res *scalibr.ScanResult
+		if strings.HasPrefix(gate, "C") {
+			// ScanContainer: the case's single root becomes the one layer of an image (variant e: an image without layers);
+			// variant d presets a decoy scan root, which ScanContainer must overwrite with the image's file system
+			img := v1.Image(empty.Image)
+			if gate != "Ce" {
+				var es []imgx.TarEnt
+				var names []string
+				for n := range w.files {
+					names = append(names, n)
+				}
+				sort.Strings(names)
+				for _, n := range names {
+					es = append(es, imgx.TarEnt{Name: n, Typ: tar.TypeReg, Body: "x"})
+				}
+				var err error
+				if img, err = v1mutate.Append(img, v1mutate.Addendum{Layer: imgx.MkLayer(es), History: v1.History{CreatedBy: "cmd0"}}); err != nil {
+					panic(err)
+				}
+			}
+			im, err := image.FromV1Image(img, image.DefaultConfig())
+			if err != nil {
+				return "loaderr"
+			}
+			defer im.CleanUp()
+			cfg.ScanRoots = nil
+			if gate == "Cd" {
+				cfg.ScanRoots = []*scalibrfs.ScanRoot{{FS: fstest.MapFS{"decoy.x0": &fstest.MapFile{Data: []byte("x")}}}}
+			}
+			res, err = scalibr.New().ScanContainer(ctx, im, cfg)
+			if err != nil {
+				n := 0
+				if res != nil {
+					n = len(res.Inventory.Findings) + len(res.Inventory.Packages) + len(res.PluginStatus)
+				}
+				gerr := "other"
+				if strings.Contains(err.Error(), "no chain layers found") {
+					gerr = "nolayers"
+				}
+				return fmt.Sprintf("st=failed gerr=%s gcalls=%s gx=%d gn=%d", gerr, hx.Join(w.calls, ","), w.xcalls, n)
+			}
+		} else {
+			res = scalibr.New().Scan(ctx, cfg)
+		}
+		if gate != "" && !strings.HasPrefix(gate, "C") {
+			gerr := "-"
+			if res.Status.Status != plugin.ScanStatusSucceeded {
+				msg := res.Status.FailureReason
+				switch {
+				case strings.Contains(msg, "not present in list.go"):
+					gerr = "enable"
+				case strings.Contains(msg, "can't be enabled"):
+					gerr = "invalid"
+				case strings.Contains(msg, "no scan root specified"):
+					gerr = "noroot"
+				case strings.Contains(msg, "can't extract specific files with several scan roots"):
+					gerr = "several"
+				}
+			}
+			if gerr != "-" {
+				return fmt.Sprintf("st=failed gerr=%s gcalls=%s gx=%d gn=%d", gerr, hx.Join(w.calls, ","), w.xcalls,
+					len(res.Inventory.Findings)+len(res.Inventory.Packages)+len(res.PluginStatus))
+			}
+		}
 
 		st := "ok"
 		errS := "none"
@@ -629,10 +756,19 @@ func run(c tcase) string {
 				mut = true
 			}
 		}
+		tail := ""
+		if strings.HasPrefix(gate, "C") {
+			tail = " gerr=-"
+		} else if gate != "" {
+			if gate[2] == '2' || gate[3] == '1' {
+				return "bad-op" // an unblocked case runs over the case's own roots, all files
+			}
+			tail = " gerr=-"
+		}
 		return fmt.Sprintf("st=%s err=%s calls=%s idx=%s idxsame=%s find=%s findset=%s fkeys=%s plug=%s plugset=%s plugkeys=%s pk=%s mut=%s",
 			st, errS, hx.Join(w.calls, ","), idx, hx.B(same), hx.Join(fo, ","), hx.Join(foSet, ","), hx.Join(fkeys, ","),
-			hx.Join(pl, ","), hx.Join(plSet, ","), hx.Join(plKeys, ","), hx.Join(pks, "."), hx.B(mut))
-	})
+			hx.Join(pl, ","), hx.Join(plSet, ","), hx.Join(plKeys, ","), hx.Join(pks, "."), hx.B(mut)) + tail
+	}()
 }
 
 // ---------------------------------------------------------------- generation
@@ -1172,6 +1308,22 @@ func runLine(l string) (reply string) {
 	case strings.HasPrefix(l, "scan "):
 		c := parseCase(l)
 		return run(c)
+	case strings.HasPrefix(l, "cscan "):
+		t := strings.SplitN(l, " ", 3)
+		if len(t) != 3 || (t[1] != "l" && t[1] != "d" && t[1] != "e") {
+			return "bad-op"
+		}
+		c := parseCase("scan " + t[2])
+		if len(c.roots) != 1 {
+			return "bad-op"
+		}
+		return runGated(c, "C"+t[1])
+	case strings.HasPrefix(l, "gate "):
+		t := strings.SplitN(l, " ", 3)
+		if len(t) != 3 || len(t[1]) != 4 || !strings.Contains("0123", t[1][0:1]) || !strings.Contains("01", t[1][1:2]) || !strings.Contains("012", t[1][2:3]) || !strings.Contains("01", t[1][3:4]) {
+			return "bad-op"
+		}
+		return runGated(parseCase("scan "+t[2]), t[1])
 	case strings.HasPrefix(l, "phases "):
 		c := parsePhases(l)
 		return runPhases(c)
@@ -1212,6 +1364,43 @@ func main() {
 	if want("scan") {
 		out.Emit("advfields", runLine("advfields")) // the enumerated field list, for the evidence
 		advFieldCases(emitScan)
+	}
+	if want("scan") {
+		// the gate in front of the phases: 12 scan cases x every combination of the four precondition flags
+		gr := rand.New(rand.NewSource(o.Seed + 7777))
+		for i := 0; i < 12; i++ {
+			c := randCase(gr)
+			if len(c.dets) == 0 {
+				continue
+			}
+			body := strings.TrimPrefix(c.line(), "scan ")
+			for _, e := range "0123" {
+				for _, v := range "01" {
+					for _, r := range "012" {
+						for _, p := range "01" {
+							l := "gate " + string([]rune{e, v, r, p}) + " " + body
+							if rep := runLine(l); rep != "bad-op" {
+								out.Emit(l, rep)
+							}
+						}
+					}
+				}
+			}
+		}
+	}
+	if want("scan") {
+		// the same contract through ScanContainer: single-root scan cases as one-layer images
+		cr := rand.New(rand.NewSource(o.Seed + 8888))
+		for n := 0; n < 40; {
+			c := randCase(cr)
+			if len(c.roots) != 1 || len(c.dets) == 0 {
+				continue
+			}
+			body := strings.TrimPrefix(c.line(), "scan ")
+			v := []string{"l", "d", "l", "d", "e"}[n%5]
+			n++
+			out.Emit("cscan "+v+" "+body, runLine("cscan "+v+" "+body))
+		}
 	}
 	if want("order") {
 		orderCases(emitScan)
